@@ -23,6 +23,8 @@ structure MNode where
 deriving Repr, DecidableEq
 
 namespace MNode
+/-- `mem_node::mem_node(offset)`: an empty node -/
+def new (off : Nat) : MNode := { offset := off, data := [], pending := false }
 /-- `mem_node::end()` -/
 def «end» (n : MNode) : Nat := n.offset + n.data.length
 /-- `mem_node::space()` -/
@@ -88,13 +90,13 @@ def appendNode (m : MemHdr) (n : MNode) : MemHdr :=
 /-- `nodeToRecieve(offset)`; the node returned is the root of the tree afterwards -/
 def nodeToRecieve (m : MemHdr) (off : Nat) : MemHdr :=
   if m.nodes.elements = 0 then
-    appendNode m { offset := off, data := [], pending := false }
+    appendNode m (MNode.new off)
   else
     let (m1, candidate) :=
       if off > 0 then getBlock m (off - 1) else (m, none)
     match candidate with
-    | some c => if c.canAccept off then m1 else appendNode m1 { offset := off, data := [], pending := false }
-    | none => appendNode m1 { offset := off, data := [], pending := false }
+    | some c => if c.canAccept off then m1 else appendNode m1 (MNode.new off)
+    | none => appendNode m1 (MNode.new off)
 
 /-- `writeAvailable(aNode, location, amount, source)` on the root node; returns the number of bytes deposited -/
 def writeAvailable (m : MemHdr) (loc : Nat) (src : List UInt8) : Except Fault (MemHdr × Nat) :=
